@@ -161,6 +161,9 @@ Definition as1 (s : SR) : Z -> R := fun t => s [t].
 Definition clip (x : Z -> R) : Z -> R := fun t => if (t <? 0)%Z then r0 else x t.
 Definition of1 (f : Z -> R) : SR := fun i => f (nth 0 i 0%Z).
 Definition as2 (s : SR) : Z -> Z -> R := fun h v => s [h; v].
+(* zero padding of a 2-D map of size H x W: whatever a producer computes outside the map is never read *)
+Definition clip2 (H W : nat) (x : Z -> Z -> R) : Z -> Z -> R :=
+  fun h v => if ((0 <=? h) && (h <? Z.of_nat H) && (0 <=? v) && (v <? Z.of_nat W))%Z then x h v else r0.
 Definition of2 (f : Z -> Z -> R) : SR := fun i => f (nth 0 i 0%Z) (nth 1 i 0%Z).
 Definition as0 (s : SR) : R := s [].
 Definition of0 (r : R) : SR := fun _ => r.
@@ -170,7 +173,7 @@ Definition of0 (r : R) : SR := fun _ => r.
    which Masks.kept_taps_progression gives for every real (beta, gamma) and frozen_lags for frozen maskers *)
 Inductive clayer :=
 | L1 (fold dw : bool) (w : w3 R) (b : option (list R)) (bn : option (list R * list R)) (cin K d s : nat) (tm : list bool) (K' sp : nat)
-| L2 (fold dw : bool) (w : w4 R) (b : option (list R)) (bn : option (list R * list R)) (cin kh kw d s ph pw : nat)
+| L2 (fold dw : bool) (w : w4 R) (b : option (list R)) (bn : option (list R * list R)) (cin kh kw d s ph pw hin win : nat)   (* hin x win = size of the input maps *)
 | L0 (fold : bool) (w : list (list R)) (b : option (list R)) (bn : option (list R * list R)) (cin : nat).
 
 Inductive cnode :=
@@ -182,7 +185,7 @@ Inductive cnode :=
 | CCat (srcs : list nat).
 
 Definition cout_of (l : clayer) : nat :=
-  match l with L1 _ _ w _ _ _ _ _ _ _ _ _ => length w | L2 _ _ w _ _ _ _ _ _ _ _ _ => length w | L0 _ w _ _ _ => length w end.
+  match l with L1 _ _ w _ _ _ _ _ _ _ _ _ => length w | L2 _ _ w _ _ _ _ _ _ _ _ _ _ _ => length w | L0 _ w _ _ _ => length w end.
 
 (* ---- what the CODE computes (Model/Conv.v): eval-mode forward of the PIT layer (repaired: maskbias = true) ... *)
 Definition clayer_pit (l : clayer) (m : list bool) (xs : list SR) : list SR :=
@@ -190,9 +193,9 @@ Definition clayer_pit (l : clayer) (m : list bool) (xs : list SR) : list SR :=
   | L1 fold dw w b bn cin K d s tm _ _ =>
       map (fun co => of1 (fun t => pit_conv1d_at r0 r1 radd rmul true fold dw w b bn cin K (Z.of_nat d) (Z.of_nat s) m tm
                                      (fun ci => padl ((K - 1) * d) (clip (as1 (nth ci xs zeroR)))) co t)) (seq 0 (length w))
-  | L2 fold dw w b bn cin kh kw d s ph pw =>
+  | L2 fold dw w b bn cin kh kw d s ph pw hin win =>
       map (fun co => of2 (fun h v => pit_conv2d_at r0 r1 radd rmul true fold dw w b bn cin kh kw (Z.of_nat d) (Z.of_nat s) (Z.of_nat ph) (Z.of_nat pw) m
-                                     (fun ci => as2 (nth ci xs zeroR)) co h v)) (seq 0 (length w))
+                                     (fun ci => clip2 hin win (as2 (nth ci xs zeroR))) co h v)) (seq 0 (length w))
   | L0 fold w b bn cin =>
       map (fun co => of0 (pit_linear_at r0 r1 radd rmul true fold w b bn cin m (fun ci => as0 (nth ci xs zeroR)) co)) (seq 0 (length w))
   end.
@@ -203,10 +206,10 @@ Definition clayer_exp (l : clayer) (m min : list bool) (xs' : list SR) : list SR
       map (fun i => of1 (fun t => bn_at r0 radd rmul (if fold then None else slice_bn m bn) i
                          (conv1d_at r0 radd rmul dw (export_w3 dw m min tm w) (export_bias m b) (count_true min) K' (Z.of_nat (sp * d)) (Z.of_nat s)
                             (fun j => padl ((K' - 1) * (sp * d)) (clip (as1 (nth j xs' zeroR)))) i t))) (seq 0 (count_true m))
-  | L2 fold dw w b bn cin kh kw d s ph pw =>
+  | L2 fold dw w b bn cin kh kw d s ph pw hin win =>
       map (fun i => of2 (fun h v => bn_at r0 radd rmul (if fold then None else slice_bn m bn) i
                          (conv2d_at r0 radd rmul dw (export_w4 dw m min w) (export_bias m b) (count_true min) kh kw (Z.of_nat d) (Z.of_nat s) (Z.of_nat ph) (Z.of_nat pw)
-                            (fun j => as2 (nth j xs' zeroR)) i h v))) (seq 0 (count_true m))
+                            (fun j => clip2 hin win (as2 (nth j xs' zeroR))) i h v))) (seq 0 (count_true m))
   | L0 fold w b bn cin =>
       map (fun i => of0 (bn_at r0 radd rmul (if fold then None else slice_bn m bn) i
                          (linear_at r0 radd rmul (export_w2 m min w) (export_bias m b) (count_true min) (fun j => as0 (nth j xs' zeroR)) i))) (seq 0 (count_true m))
@@ -262,7 +265,7 @@ Definition clayer_wf (l : clayer) (m min : list bool) : Prop :=
   | L1 fold dw w b bn cin K d s tm K' sp =>
       cshape3 w (length m) (if dw then 1 else cin) K /\ cbias_ok b (length m) /\ cbn_ok bn (length m) /\
       length tm = K /\ kept_lags K tm = export_lags K' sp /\ (if dw then m = min else length min = cin)
-  | L2 fold dw w b bn cin kh kw d s ph pw =>
+  | L2 fold dw w b bn cin kh kw d s ph pw hin win =>
       cshape2 w (length m) (if dw then 1 else cin) /\ cbias_ok b (length m) /\ cbn_ok bn (length m) /\ (if dw then m = min else length min = cin)
   | L0 fold w b bn cin =>
       cshape2 w (length m) cin /\ cbias_ok b (length m) /\ cbn_ok bn (length m) /\ length min = cin
@@ -285,8 +288,8 @@ Definition bconst (b : option (list R)) (co : nat) : SR := of0 (match b with Som
 Definition postbn (bn : option (list R * list R)) (co : nat) (s : SR) : SR := fun i => bn_at r0 radd rmul bn co (s i).
 Definition T1 (w : w3 R) (tm : list bool) (K d s : nat) (co wi : nat) (sg : SR) : SR :=
   of1 (fun t => taps r0 radd rmul (w3at (mask_w3_time r0 r1 rmul tm w) co wi) K (Z.of_nat d) (padl ((K - 1) * d) (clip (as1 sg))) (Z.of_nat s * t)%Z).
-Definition T2 (w : w4 R) (kh kw d s ph pw : nat) (co wi : nat) (sg : SR) : SR :=
-  of2 (fun h v => taps2 r0 radd rmul (w4at w co wi) kh kw (Z.of_nat d) (as2 sg) (Z.of_nat s * h - Z.of_nat ph)%Z (Z.of_nat s * v - Z.of_nat pw)%Z).
+Definition T2 (w : w4 R) (kh kw d s ph pw hin win : nat) (co wi : nat) (sg : SR) : SR :=
+  of2 (fun h v => taps2 r0 radd rmul (w4at w co wi) kh kw (Z.of_nat d) (clip2 hin win (as2 sg)) (Z.of_nat s * h - Z.of_nat ph)%Z (Z.of_nat s * v - Z.of_nat pw)%Z).
 Definition T0 (w : list (list R)) (co ci : nat) (sg : SR) : SR := of0 (rmul (nth ci (nth co w []) r0) (as0 sg)).
 
 Definition node_of (nd : cnode) : node SR :=
@@ -296,10 +299,10 @@ Definition node_of (nd : cnode) : node SR :=
       let post := postbn (if fold then None else bn) in
       if dw then NDw SR src (length m) (fun co => T1 w tm K d s co 0) (bconst b) post m
       else NFull SR src cin (length m) (T1 w tm K d s) (bconst b) post m
-  | CLayer src (L2 fold dw w b bn cin kh kw d s ph pw) m =>
+  | CLayer src (L2 fold dw w b bn cin kh kw d s ph pw hin win) m =>
       let post := postbn (if fold then None else bn) in
-      if dw then NDw SR src (length m) (fun co => T2 w kh kw d s ph pw co 0) (bconst b) post m
-      else NFull SR src cin (length m) (T2 w kh kw d s ph pw) (bconst b) post m
+      if dw then NDw SR src (length m) (fun co => T2 w kh kw d s ph pw hin win co 0) (bconst b) post m
+      else NFull SR src cin (length m) (T2 w kh kw d s ph pw hin win) (bconst b) post m
   | CLayer src (L0 fold w b bn cin) m => NFull SR src cin (length m) (T0 w) (bconst b) (postbn (if fold then None else bn)) m
   | CChan src f => NChan SR src f
   | CExpand src mult f => NExpand SR src mult f
@@ -315,16 +318,24 @@ Definition flat_idx (t : tens) (q : nat) : list Z :=
   | TS2 x => let W := length (nth 0 (nth 0 x []) []) in [Z.of_nat (q / W); Z.of_nat (q mod W)]
   | _ => [Z.of_nat q]
   end.
+Definition tdimh (t : tens) : nat := match t with TS2 x => length (nth 0 x []) | _ => 0 end.
+Definition tdimw (t : tens) : nat := match t with TS2 x => length (nth 0 (nth 0 x []) []) | _ => 0 end.
+(* function-level max pooling (stride = window = k) and stand-alone causal pad *)
+Definition poolf1 (k : nat) (s : SR Z) : SR Z :=
+  fun i => zmax (map (fun j => s [(Z.of_nat k * nth 0 i 0 + Z.of_nat j)%Z]) (seq 0 k)).
+Definition poolf2 (k : nat) (s : SR Z) : SR Z :=
+  fun i => zmax (concat (map (fun a => map (fun r => s [(Z.of_nat k * nth 0 i 0 + Z.of_nat r)%Z; (Z.of_nat k * nth 1 i 0 + Z.of_nat a)%Z]) (seq 0 k)) (seq 0 k))).
+Definition padf (P : nat) (s : SR Z) : SR Z := of1 Z (padl P (clip Z 0%Z (as1 Z s))).
 Definition xtr (x : tens) (acc : list xstate) (nd : xnode) : cnode Z :=
   match nd with
   | XIn => CInput Z (tchan x)
-  | XPad src _ _ => CChan Z src (fun s => s)                     (* not covered (excluded by xwf) *)
+  | XPad src P _ => CChan Z src (padf P)                         (* stand-alone pad (xwf: same amount after export) *)
   | XConv1 src fold dw w b cin K d s m tm K' d' => CLayer Z src (L1 Z fold dw w b None cin K d s tm K' (d' / d)) m
-  | XConv2 src fold dw w b cin kh kw d s ph pw m => CLayer Z src (L2 Z fold dw w b None cin kh kw d s ph pw) m
+  | XConv2 src fold dw w b cin kh kw d s ph pw m => let '(p, _, _) := xget acc src in CLayer Z src (L2 Z fold dw w b None cin kh kw d s ph pw (tdimh p) (tdimw p)) m
   | XLin src fold w b cin m => CLayer Z src (L0 Z fold w b None cin) m
   | XAct src six => CChan Z src (actZ (if six then relu6 else relu))
   | XId src => CChan Z src (fun s => s)
-  | XMaxPool src k => CChan Z src (fun s => s)                   (* not covered (excluded by xwf) *)
+  | XMaxPool src k => let '(p, _, _) := xget acc src in CChan Z src (match p with TS2 _ => poolf2 k | _ => poolf1 k end)
   | XFlatten src => let '(p, _, _) := xget acc src in CExpand Z src (tmult p) (fun q s => of0 Z (s (flat_idx p q)))
   | XAdd a b => CAdd Z a b
   | XCat srcs => CCat Z srcs
